@@ -61,7 +61,7 @@ BASE = dict(DTs='{"out"}', MaxLen=4, MaxErr=0, Marks='{}', MaxMarks=0,
             SepShapes=ALL_SHAPES, SepPer=1, MaxSepLen=2,
             Regexes='{"re0", "reK"}', SepFix='TRUE', ReMax=REMAX,
             MaxBatch=2, MaxCalls=0, Proc='FALSE', Redir='FALSE', MaxRedir=1,
-            Canon='FALSE',
+            Canon='FALSE', Readers='{}', EscapeFix='TRUE', StreamSample=0,
             Policy='"any"', PrintAt=0, SearchBug='FALSE', CloseBug='FALSE',
             ResumeFix='TRUE', CollectFix='TRUE')
 DRAIN = dict(High=4, Low=1, Win=3, Sizes='{1, 2, 5}', MaxBuf=12, MaxOps=0,
@@ -161,9 +161,13 @@ def jobs_for(tier):
                Ns='{1, 2, %d}' % (N + 1), **seps)
     for wname, wins in (('9', '{9}'), ('2', '{2}' if q else '{1, 2}')):
         J.append(Job('tab_rfl' + wname, 'Stream',
-                     S(Policy='"rfl"', Windows=wins, **tab),
+                     S(Policy='"rfl"', Windows=wins,
+                       StreamSample=(70 if wname == '9' else 60) if q else 0,
+                       **tab),
                      ['ChunkIndependent'], cases=True, workers=4, heap='6g'))
-    J.append(Job('tab_dfl', 'Stream', S(Policy='"dfl"', Windows='{9}', **tab),
+    J.append(Job('tab_dfl', 'Stream',
+                 S(Policy='"dfl"', Windows='{9}', StreamSample=50 if q else 0,
+                   **tab),
                  ['ChunkIndependent'], cases=True, workers=4, heap='6g'))
     J.append(Job('tab_marks', 'Stream',
                  S(Policy='"rfl"', DTs='{"in"}',
@@ -188,6 +192,20 @@ def jobs_for(tier):
                    **red),
                  ['ChunkIndependent', 'NothingLost', 'AllDataThenEOF'],
                  cases=True, workers=2, heap='4g'))
+    # two read streams on one session, some of them left unread
+    two_tab = dict(Policy='"two"', Canon='TRUE', Proc='TRUE', DTs='{"out", "err"}',
+                   MaxErr=3, Windows='{1, 2, 3}', Ns='{1}', ReadAll='TRUE',
+                   MaxBatch=1, MaxCalls=14, PrintAt=44, **NL_ONLY)
+    for rname, rset, mlen in (('out', '{"out"}', 4), ('both', '{"out", "err"}', 3 if q else 4),
+                              ('none', '{}', 4)) + \
+            (() if q else (('err', '{"err"}', 4),)):
+        J.append(Job('tab_two_' + rname, 'Stream',
+                     S(Readers=rset, MaxLen=mlen,
+                       StreamSample=7 if q and rname != 'none' else 0,
+                       **dict(two_tab, Windows='{1, 2}' if q and
+                              rname == 'both' else '{1, 2, 3}')),
+                     ['ChunkIndependent', 'NothingLost'], cases=True,
+                     workers=4, heap='6g'))
     sim = dict(MaxLen=5 if q else 6, MaxBatch=3, MaxCalls=8, PrintAt=24,
                Windows='{1, 2, 3, 9}',
                Ns='{0, 1, 2, 6}' if q else '{0, 1, 2, 3, 5, 6, 7}', **seps)
@@ -246,6 +264,10 @@ def jobs_for(tier):
     J.append(Job('sens_sepfix', 'Stream',
                  S(MaxLen=3, Windows='{9}', Ns='{1}', SepFix='FALSE',
                    SepShapes='{"nested"}', Regexes='{}'),
+                 ['ChunkIndependent'], expect='ChunkIndependent', workers=2))
+    J.append(Job('sens_escape', 'Stream',
+                 S(MaxLen=2, Windows='{1}', Ns='{1}', EscapeFix='FALSE',
+                   **dict(two, **NL_ONLY)),
                  ['ChunkIndependent'], expect='ChunkIndependent', workers=2))
     J.append(Job('sens_collect', 'Stream',
                  S(MaxLen=2, Windows='{1}', CollectFix='FALSE', **proc),
@@ -330,6 +352,15 @@ REGRESSIONS = [
        ['redirect', 'out', []],
        ['emit', 'eof', 'out', []], ['run', []]],
       [[[], ['a', 'b', 'n']], [[], []]]]),
+    ('stderr alone fills the window, stdout is iterated: no empty line '
+     'before EOF, iteration stops at EOF',
+     [2, [['a', 'n'], ['n', 'a']],
+      [['emit', 'data', 'err', ['n', 'a']], ['run', [], [False, False]],
+       ['call', 'out', 'next', 0, NL, [], [False, False]],
+       ['emit', 'eof', 'out', []],
+       ['run', [['out', 'ret', [], [], '-']], [True, False]],
+       ['call', 'out', 'next', 0, NL, [['out', 'stop', [], [], '-']],
+        [True, False]]]]),
     ('separator spanning a chunk boundary, leftover kept',
      [9, [['n', 'a', 'b', 'a', 'b']],
       [['call', 'out', 'until', 0, AB, []],
@@ -514,6 +545,38 @@ def select_red(cases, quick, seed, cap):
     return out
 
 
+def select_two(cases, quick, seed, cap):
+    """Two-stream tables: stratified by (kind of call, window, whether a
+    stream reported EOF while another one still held unread data)."""
+    rnd = random.Random(seed)
+    if not quick:
+        cap *= 12
+    if len(cases) <= cap:
+        return cases
+    classes = {}
+    for c in cases:
+        call = next((l for l in c[2] if l[0] == 'call'), None)
+        aes = [l[-1] for l in c[2] if l[0] in ('run', 'call')]
+        mixed = any(len(set(a)) > 1 for a in aes if isinstance(a, list))
+        key = (call[2] if call else '-', c[0], mixed)
+        classes.setdefault(key, []).append(c)
+    keys = sorted(classes, key=repr)
+    for k in keys:
+        rnd.shuffle(classes[k])
+    out = []
+    i = 0
+    while len(out) < cap:
+        progressed = False
+        for k in keys:
+            if i < len(classes[k]) and len(out) < cap:
+                out.append(classes[k][i])
+                progressed = True
+        if not progressed:
+            break
+        i += 1
+    return out
+
+
 def select(cases, quick, seed, cap, stride=1):
     rnd = random.Random(seed)
     if not quick:
@@ -613,10 +676,13 @@ def main(ctx):
         total += len(scs)
 
         # ---- TLC generated cases ----
-        plan = [('tab_rfl9', 3200, 2), ('tab_rfl2', 2400, 2),
-                ('tab_dfl', 2000, 3),
-                ('tab_marks', 2000, 1),
-                ('tab_redA', 1500, 1), ('tab_redB', 500, 1),
+        plan = [('tab_rfl9', 2800, 2), ('tab_rfl2', 2000, 2),
+                ('tab_dfl', 1600, 3),
+                ('tab_marks', 1600, 1),
+                ('tab_redA', 1300, 1), ('tab_redB', 400, 1),
+                ('tab_two_out', 1400, 1), ('tab_two_both', 1200, 1),
+                ('tab_two_none', 300, 1)] + \
+            ([] if quick else [('tab_two_err', 1400, 1)]) + [
                 ('sim_two', 1100, 1), ('sim_marks', 1100, 1),
                 ('sim_proc', 1200, 1), ('sim_redir', 1200, 1)]
         for world, cap, stride in plan:
@@ -632,6 +698,8 @@ def main(ctx):
                         res.output[-1500:])
             if world.startswith('tab_red'):
                 sel = select_red(cases, quick, ctx.seed, cap)
+            elif world.startswith('tab_two'):
+                sel = select_two(cases, quick, ctx.seed, cap)
             elif world.startswith('tab_'):
                 sel, npri = select_tab(stream, cases, quick, ctx.seed, cap)
                 ctx.notes.append(f'{world}: {npri} of the replayed cases have '
